@@ -15,9 +15,9 @@ from mc.ref.validate import validate
 
 PLAN = {
     # (scenario, bound on *free* calls; steps with a single enabled call do not count)
-    "quick": [("D1", 3), ("D2", 2), ("D0", 3), ("D3", 2), ("C1", 3), ("C2", 3), ("L1", 3), ("L2", 2), ("G1", 3), ("G2", 2), ("K1", 2), ("M1", 3), ("M2", 3), ("M5", 3), ("RG", 3), ("RC", 3), ("RL", 3), ("RF", 3), ("M6", 3), ("K2", 3), ("Q1", 3)],
+    "quick": [("D1", 3), ("D2", 2), ("D0", 3), ("D3", 2), ("C1", 3), ("C2", 3), ("L1", 3), ("L2", 2), ("G1", 3), ("G2", 2), ("K1", 2), ("M1", 3), ("M2", 3), ("M5", 3), ("RG", 3), ("RC", 3), ("RL", 3), ("RF", 3), ("M6", 3), ("K2", 3), ("Q1", 3), ("M7", 3)],
     # thorough: one more free call where the state count allows (D2 at 4 is 12.8M states, G1 at 4 7.7M, D0 at 5 2.3M)
-    "thorough": [("D1", 4), ("D2", 3), ("D0", 4), ("D3", 3), ("C1", 4), ("C2", 5), ("L1", 4), ("L2", 3), ("G1", 3), ("G2", 3), ("K1", 3), ("M1", 4), ("M2", 4), ("M5", 4), ("RG", 4), ("RC", 5), ("RL", 5), ("RF", 4), ("M6", 4), ("K2", 4), ("Q1", 4)],
+    "thorough": [("D1", 4), ("D2", 3), ("D0", 4), ("D3", 3), ("C1", 4), ("C2", 5), ("L1", 4), ("L2", 3), ("G1", 3), ("G2", 3), ("K1", 3), ("M1", 4), ("M2", 4), ("M5", 4), ("RG", 4), ("RC", 5), ("RL", 5), ("RF", 4), ("M6", 4), ("K2", 4), ("Q1", 4), ("M7", 4)],
 }
 
 
